@@ -147,6 +147,53 @@ Theorem C14_truncate_width_overflow_is_not_a_spec : forall ds, ds <> [] -> foral
 Proof. exact parse_spec_overflow_rejected_trunc. Qed.
 Print Assumptions C14_truncate_width_overflow_is_not_a_spec.
 
+(* ---- round 5: the column limit maxCategoryWidth is quantified over the WHOLE int range ------------------------
+   PrettyFormatter(colorize, maxCategoryWidth): INT_MAX is the natural way to say "no limit", 0 and negative values
+   switch the alignment off.  One formatter object, a whole message sequence (the column is remembered from message to
+   message): for every limit in [INT_MIN, INT_MAX] every sum and difference of the width arithmetic
+   (estimatedSize, categoryFormatLength, qMin(field, limit), spaceCount) fits an int, the padding count is never
+   negative, and there is one output per message. *)
+Theorem C14_pretty_sequence_total_every_limit : forall colorize maxw l, INT_MIN <= maxw <= INT_MAX ->
+  Forall (fun x : mtype * option qstr * qstr => len (snd x) + len (cstr (snd (fst x))) <= INT_MAX - 200) l ->
+  exists outs, pretty_seq_raw_c colorize maxw 0 l = Some outs /\ length outs = length l.
+Proof. exact pretty_seq_raw_total. Qed.
+Print Assumptions C14_pretty_sequence_total_every_limit.
+(* the remembered column: below a positive limit it never shrinks and never exceeds the limit (in particular it is
+   never negative and never above INT_MAX), without a positive limit it is not touched *)
+Theorem C14_pretty_column_within_limit : forall colorize maxw cw t cat msg out cw',
+  pretty_c colorize maxw cw t cat msg = Some (out, cw') ->
+  (0 < maxw -> cw <= maxw -> cw <= cw' <= maxw) /\ (maxw <= 0 -> cw' = cw).
+Proof. exact pretty_column_bounds. Qed.
+Print Assumptions C14_pretty_column_within_limit.
+(* "no limit" = INT_MAX: the column is the longest "[name] " field seen so far - no wrap-around at the top of the range *)
+Theorem C14_pretty_no_limit_column : forall colorize cw t cat msg out cw',
+  len msg + (match cat with Some c => len c | None => 0 end) <= INT_MAX - 200 ->
+  pretty_c colorize INT_MAX cw t cat msg = Some (out, cw') -> cw' = Z.max cw (cat_field_len cat).
+Proof. exact pretty_column_no_limit. Qed.
+Print Assumptions C14_pretty_no_limit_column.
+
+(* ---- round 5: the formatter chain of the one-line configure(pipeline, path, ...) ---------------------------------
+   PrettyFormatter(colour) -> console sink -> FunctionFormatter that removes the colour codes (ESC [ params* final,
+   constants read from configure.cpp) -> file sink.  For every message text - escape fragments included - the
+   chain is total and what reaches the file is the PrettyFormatter text without colour codes, never longer. *)
+Theorem C14_configure_chain_total : forall cw t (c : option qstr) msg, 0 <= cw <= INT_MAX -> len msg + len (cstr c) <= INT_MAX - 200 ->
+  exists p out cw', pretty_c src_cfg_colorize src_pretty_default_maxw cw t (pretty_cat_of_ptr c) msg = Some (p, cw') /\
+                    configure_c cw t (pretty_cat_of_ptr c) msg = Some (out, cw') /\ out = strip_sgr p /\ len out <= len p /\ 0 <= cw' <= INT_MAX.
+Proof. exact configure_total. Qed.
+Print Assumptions C14_configure_chain_total.
+Theorem C14_strip_colour_codes_never_longer : forall s, len (strip_sgr s) <= len s.
+Proof. exact strip_sgr_len. Qed.
+Print Assumptions C14_strip_colour_codes_never_longer.
+Theorem C14_strip_leaves_text_without_esc : forall s, ~ In src_sgr_esc s -> strip_sgr s = s.
+Proof. exact strip_sgr_plain. Qed.
+Print Assumptions C14_strip_leaves_text_without_esc.
+(* an UNFINISHED colour code at the end of the text (ESC [ and parameters, no final byte behind it) is kept and the
+   remover returns: the message text on which a "find ESC [, then find the final byte" loop does not come back *)
+Theorem C14_strip_returns_on_unfinished_code : forall s ps, ~ In src_sgr_esc s -> forallb is_sgr_param ps = true ->
+  strip_sgr (s ++ src_sgr_esc :: src_sgr_open :: ps) = s ++ src_sgr_esc :: src_sgr_open :: ps.
+Proof. exact strip_sgr_unfinished_tail. Qed.
+Print Assumptions C14_strip_returns_on_unfinished_code.
+
 (* non-vacuity: the model computes real results on real signatures *)
 Example C14_cleanup_nonvacuous :
   (* "std::vector<int> ns::C<T>::f(int) const [with T = int]" -> "ns::C::f" *)
@@ -176,3 +223,21 @@ Example C14_width_overflow_nonvacuous :
   /\ parse_spec_c (A [60;53]) = Some (Some {| fill := 32%N; al := ALeft; width := 5; mode := MNone |})
   /\ dec_value (A [52;50;57;52;57;54;55;51;48;49]) 0 = 4294967301.
 Proof. vm_compute. repeat split; reflexivity. Qed.
+
+(* PrettyFormatter(false, INT_MAX) on (W, "app.network", "x"), (W, "ui", "y"): the second message is padded to the
+   column of the first ("[app.network] " = 14, "[ui] " = 5 -> 9 blanks) *)
+Example C14_pretty_no_limit_nonvacuous :
+  pretty_seq_raw_c false INT_MAX 0
+    [ (Warning, Some (A [97;112;112;46;110;101;116;119;111;114;107]), A [120]); (Warning, Some (A [117;105]), A [121]) ]
+  = Some [ A [87;32;91;97;112;112;46;110;101;116;119;111;114;107;93;32;120];
+           A [87;32;91;117;105;93;32;32;32;32;32;32;32;32;32;32;121] ].
+Proof. vm_compute. reflexivity. Qed.
+(* ESC[1;32m I ESC[0m " x " ESC[m ESC[1;3  ->  I " x " ESC[1;3   (complete codes removed, the cut-off one kept) *)
+Example C14_strip_nonvacuous :
+  strip_sgr (A [27;91;49;59;51;50;109;73;27;91;48;109;32;120;32;27;91;109;27;91;49;59;51]) = A [73;32;120;32;27;91;49;59;51].
+Proof. vm_compute. reflexivity. Qed.
+(* configure chain, debug message "a" ESC "[1;3" in category "app": "  [app] a" ESC "[1;3" reaches the file *)
+Example C14_configure_chain_nonvacuous :
+  configure_seq_raw_c 0 [ (Debug, Some (A [97;112;112]), A [97;27;91;49;59;51]) ]
+  = Some [ A [32;32;91;97;112;112;93;32;97;27;91;49;59;51] ].
+Proof. vm_compute. reflexivity. Qed.
